@@ -30,7 +30,8 @@ EXPLANATION = (
     "received the redirect, for absolute, relative, dot-segment and scheme-relative Locations over chains of up to 4 hops (F27, fixed); (b) with limit L exactly L "
     "redirects are followed, then ResponseFailed, for L in 0,1,2,3 and the default, and a redirect without Location fails; (c) Authorization / Cookie / "
     "Proxy-Authorization and configured names (in any capitalisation) are never sent to an origin (scheme, host, port) other than the original request's, are kept "
-    "on same-origin hops, and other headers always survive - including scheme-relative and port-changing targets; (d) per status code and method of both agents: "
+    "on same-origin hops, and other headers always survive - including scheme-relative and port-changing targets; also with two requests IN FLIGHT on one agent whose redirects "
+    "arrive in either order (structurally: nothing the redirect chain reads is an attribute of the agent that request() or the chain itself writes - every hop works on its own arguments); (d) per status code and method of both agents: "
     "followed / refused, method kept for 307/308 and switched to GET exactly for 303 (and 301/302 of the browser-like agent); F27b (the browser-like "
     "agent switched POST to GET on 308) is fixed; its revert is a mutant. Not decided: URL resolution arithmetic of urljoin itself."
 )
@@ -565,6 +566,8 @@ def _concurrent(ctx):
             for second_headers in (True, False):
                 for target in (b"http://b.example/landing", b"http://a.example/landing", b"/relative"):
                     for order in ((0, 1), (1, 0)):
+                        if agent != "RedirectAgent" and not (first == A and second_headers and order == (1, 0)):
+                            continue          # the subclass shares the code path: one slice of the grid
                         n += 1
                         inner = _PendingInner()
                         ag = w.new(agent, inner, sensitiveHeaderNames=(b"x-custom-secret",))
@@ -656,6 +659,8 @@ def _methods(ctx):
 
 
 MUTANTS = [
+    Mutant("first-origin-remembered-on-the-agent", CL, "            parsedURI = URI.fromBytes(uri)\n", "            if redirectCount == 0:\n                self._firstURI = uri\n            parsedURI = URI.fromBytes(self._firstURI)\n", expect_rule="credentials/"),
+    Mutant("sensitive-names-narrowed-per-request-on-the-agent", CL, "        if headers:\n            parsedURI = URI.fromBytes(uri)\n", "        self._lastLocation = location\n        if headers and self._lastLocation is not None:\n            parsedURI = URI.fromBytes(uri)\n", expect_rule="credentials/per-request-state"),
     Mutant("limit-verdict-flag-overwritten", CL, "        if redirectCount >= self._redirectLimit:\n            err = error.InfiniteRedirection(\n                response.code, b\"Infinite redirection detected\", location=uri\n            )\n            raise ResponseFailed([Failure(err)], response)\n        locationHeaders = response.headers.getRawHeaders(b\"location\", [])\n        if not locationHeaders:\n            err = error.RedirectWithNoLocation(\n                response.code, b\"No location header field\", uri\n            )\n            raise ResponseFailed([Failure(err)], response)\n", "        err = None\n        if redirectCount >= self._redirectLimit:\n            err = error.InfiniteRedirection(\n                response.code, b\"Infinite redirection detected\", location=uri\n            )\n        locationHeaders = response.headers.getRawHeaders(b\"location\", [])\n        if not locationHeaders:\n            err = error.RedirectWithNoLocation(\n                response.code, b\"No location header field\", uri\n            )\n        else:\n            err = None\n        if err is not None:\n            raise ResponseFailed([Failure(err)], response)\n"),
     Mutant("next-hop-told-get-whatever-was-requested", CL, "            self._handleResponse, method, uri, headers, redirectCount + 1, location\n", "            self._handleResponse, b\"GET\", uri, headers, redirectCount + 1, location\n",
            expect_rule="pairing/method-handed-on"),
@@ -693,6 +698,7 @@ MUTANTS = [
            "            return self._handleRedirect(\n                response, method, uri, headers, redirectCount\n            )"),
 ]
 SILENT = [
+    Silent("origin-of-a-uri-by-a-static-helper-on-per-request-arguments", CL, "            parsedURI = URI.fromBytes(uri)\n            parsedLocation = URI.fromBytes(location)\n", "            parsedURI = self._parsed(uri)\n            parsedLocation = self._parsed(location)\n", more=[(CL, "    def _handleResponse(\n        self, response, method, uri, headers, redirectCount, requestURI=None\n    ):", "    @staticmethod\n    def _parsed(u):\n        return URI.fromBytes(u)\n\n    def _handleResponse(\n        self, response, method, uri, headers, redirectCount, requestURI=None\n    ):")]),
     Silent("limit-verdict-carried-in-a-flag", CL, "        if redirectCount >= self._redirectLimit:\n            err = error.InfiniteRedirection(\n                response.code, b\"Infinite redirection detected\", location=uri\n            )\n            raise ResponseFailed([Failure(err)], response)\n        locationHeaders = response.headers.getRawHeaders(b\"location\", [])\n        if not locationHeaders:\n            err = error.RedirectWithNoLocation(\n                response.code, b\"No location header field\", uri\n            )\n            raise ResponseFailed([Failure(err)], response)\n", "        err = None\n        if redirectCount >= self._redirectLimit:\n            err = error.InfiniteRedirection(\n                response.code, b\"Infinite redirection detected\", location=uri\n            )\n        else:\n            locationHeaders = response.headers.getRawHeaders(b\"location\", [])\n            if not locationHeaders:\n                err = error.RedirectWithNoLocation(\n                    response.code, b\"No location header field\", uri\n                )\n        if err is not None:\n            raise ResponseFailed([Failure(err)], response)\n"),
     Silent("method-of-the-next-hop-by-local-name", CL, "        deferred = self._agent.request(method, location, headers)\n", "        nextMethod = method\n        deferred = self._agent.request(nextMethod, location, headers)\n",
            more=[(CL, "            self._handleResponse, method, uri, headers, redirectCount + 1, location\n", "            self._handleResponse, nextMethod, uri, headers, redirectCount + 1, location\n")]),
